@@ -400,6 +400,9 @@ func runC17(c c17Case, tr *vw.Trace) *vw.Violation {
 		var out []*bgp.Advertisement
 		for _, a := range set {
 			_, n, _ := net.ParseCIDR(c17Prefixes[a.Prefix])
+			if a.Prefix%2 == 1 {
+				n.IP = n.IP.To16() // the same IPv4 network held in the 16-byte form (as net.ParseIP and ipaddr hand it out)
+			}
 			adv := &bgp.Advertisement{Prefix: n, LocalPref: a.LP}
 			for _, x := range a.Comms {
 				adv.Communities = append(adv.Communities, mkComm(x))
